@@ -57,4 +57,12 @@ PROPS = {
             "assumptions": ["the SDK guarantees that a message's declared signer / authority signed the transaction (the stream calls the real message-server handlers with every authority string; non-authority signers also through real signed transactions for MsgUpdateClient)",
                             "stateless Validate() of client states is an input flag of the model (its fields are outside the model)"],
             "explanation": "authority / relayer gates as theorems per handler, `create_never_overwrites`, `refused_unchanged`, `type_preserved` over all histories of user-reachable operations; correspondence: message type x signer x payload matrix on the real msg server with registry dump; oracles: took-effect-for-non-authority, unregistered relayer, refused-changed-state (raw KV dump)."},
+    "C07": {"level": "proof", "streams": [{"name": "tm", "test": "TestStreamTm", "cases": 10, "ops": 50, "thorough_scale": 20}],
+            "assumptions": ["ed25519 signature validity is a bit per commit entry (unforgeability not modelled)", "validator-set hashing is an abstract function Hv (cometbft ValidatorSet.Hash)",
+                            "structural validations of protobuf / cometbft types are one flag `basicOk` (exercised with structurally broken headers)"],
+            "explanation": "`tm_accept_iff` (accept <-> explicit rule, incl. cometbft's order-sensitive commit scan characterised by `scanC_iff`), `tm_accept_effect`, `tm_latest_monotone`; correspondence: really signed headers of a fictitious chain against the real ClientKeeper.UpdateClient at exact 1/3, 2/3, expiry and drift boundaries; independent rule oracle on every accepted header."},
+    "C14": {"level": "proof", "streams": [{"name": "status", "test": "TestStreamStatus", "cases": 4, "ops": 30, "thorough_scale": 15},
+                                          {"name": "tm", "test": "TestStreamTm", "cases": 6, "ops": 40, "thorough_scale": 15}],
+            "assumptions": COMMON_ASSUME,
+            "explanation": "`tm_status_iff`, `eth_status_iff` (+ sub-second independence), `packets_require_active`, `update_requires_active`; correspondence: Status of real TM / BSC / ETH client states at period-1, period, period+1 with every sub-second part; MsgRecvPacket / MsgAcknowledgement against really expired clients on two real chains."},
 }
